@@ -19,6 +19,8 @@ B9  == <<J(W("a"), "none"), Lx("\\!")>>           \* ends with punctuation
 B10 == <<J(Lx("\\!"), "none"), W("a")>>           \* starts with punctuation
 B11 == <<Lx("\\]")>>
 B12 == <<J(W("a"), "sp"), J(Code("`x y`"), "sp"), W("bb")>>
+B13 == <<J(W("a"), "none"), Br("\\"), W("bb")>>       \* hard break inside link text / image description
+B14 == <<J(W("a"), "sp"), Br("  "), W("bb")>>
 
 Words  == {W("a"), W("bb"), W("1")}
 EscLex == {Lx("\\#"), Lx("\\-"), Lx("\\+"), Lx("\\>"), Lx("\\."), Lx("\\)"), Lx("\\*"), Lx("\\_"),
@@ -31,9 +33,9 @@ EmBodies   == {B1, B2, B3, B4, B5, B6, B7, B8, B9, B10}
 Emphs  == {Em(c, b) : c \in {"*", "_"}, b \in EmBodies} \cup {Strong(c, b) : c \in {"*", "_"}, b \in EmBodies}
 Tails  == {"(u)", "(/a \"t\")", "(/a 't')", "(/a (t))", "(<a b>)", "()", "(u \"x y\")", "(a(b)c)",
            "(<> \"t\")", "(\\(u)", "(u 'i\\'s \"q\"')", "(u \"t&NewLine;v\")"}
-LinkBodies == {B1, B2, B3, B6, B7, B11, B12}
+LinkBodies == {B1, B2, B3, B6, B7, B11, B12, B13, B14}
 Links  == {Link(b, "(u)") : b \in LinkBodies} \cup {Link(B1, t) : t \in Tails} \cup {Link(B2, "(u \"x y\")")}
-Imgs   == {Img(b, "(u)") : b \in {B1, B2, B7, B3}} \cup {Img(B1, t) : t \in {"(/a \"t\")", "(<a b>)", "()", "(u \"x y\")"}}
+Imgs   == {Img(b, "(u)") : b \in {B1, B2, B7, B3, B13}} \cup {Img(B1, t) : t \in {"(/a \"t\")", "(<a b>)", "()", "(u \"x y\")"}}
 Brs    == {Br("\\"), Br("  ")}
 
 FullAtoms == Words \cup EscLex \cup EntLex \cup Codes \cup Autos \cup Emphs \cup Links \cup Imgs \cup Brs
